@@ -7,14 +7,17 @@ EXTENDS Frontend, Json, SequencesExt
 
 CONSTANTS MaxDecls,     \* program length bound
           Rich,         \* TRUE: full shape tables (simulation); FALSE: small tables (exhaustive)
-          Sample        \* TRUE: one random candidate per declaration kind and step (-simulate)
+          Sample,       \* TRUE: one random candidate per declaration kind and step (-simulate)
+          MinDecls,     \* a program is not finished before it has this many declarations
+          BlockBudget,  \* a top-level block is closed after about this many declarations
+          WithPlans     \* TRUE: also print file-partition plans for the finished program (C04)
 
 VARIABLES st, prog, done
 gvars == <<st, prog, done>>
 
 Apps == IF Rich THEN {"A", "B", "NS :: C"} ELSE {"A", "B"}
-TypesOf(app) == IF app = "A" THEN {"T", "U"} ELSE IF app = "B" THEN {"W", "V"} ELSE {"X", "Y"}
-FieldNames == IF Rich THEN {"a", "b", "c", "d", "e", "x"} ELSE {"a", "x"}
+TypesOf(app) == IF ~Rich THEN {"T"} ELSE IF app = "A" THEN {"T", "U"} ELSE IF app = "B" THEN {"W", "V"} ELSE {"X", "Y"}
+FieldNames == IF Rich THEN {"a", "b", "c", "d", "e", "x"} ELSE {"a"}
 EpNames == IF Rich THEN {"Ep", "Op", "Get Thing"} ELSE {"Ep"}
 Texts == IF Rich THEN {"do it", "check stock", "validate the order", "done"} ELSE {"do it"}
 Preds == IF Rich THEN {"x > 5", "item in items", "stock is low", "a == b && c"} ELSE {"ready"}
@@ -22,13 +25,14 @@ Preds == IF Rich THEN {"x > 5", "item in items", "stock is low", "a == b && c"} 
 Prims == IF Rich
   THEN {"int", "int32", "int64", "float", "float32", "float64", "decimal", "string", "bytes",
         "date", "datetime", "bool", "any", "xml"}
-  ELSE {"int", "string"}
+  ELSE {"int"}
 
 Sizes(p) == IF ~Rich THEN {<<>>}
             ELSE IF p = "string" THEN {<<>>, <<5>>, <<2, 5>>, <<100>>}
             ELSE IF p = "decimal" THEN {<<>>, <<6, 2>>, <<12, 0>>} ELSE {<<>>}
 
-Wraps == IF Rich THEN {"", "set", "seq"} ELSE {"", "seq"}
+Wraps == IF Rich THEN {"", "set", "seq"} ELSE {""}
+Opts == IF Rich THEN BOOLEAN ELSE {FALSE}
 
 \* types declared so far in app (so that U.x style references are unambiguous)
 Declared(app) == {f[3] : f \in {g \in st.model : g[1] = "type" /\ g[2] = app /\ g[4] \in {"tuple", "relation"}}}
@@ -40,10 +44,10 @@ Refs(app) ==
   \cup UNION {{<<o, t>> : t \in TypesOf(IF o = "NS :: C" THEN "C" ELSE o)} : o \in Apps \ {app}}
 
 PrimShapes == {[p |-> p, ref |-> <<>>, size |-> s, opt |-> o, wrap |-> w] :
-                 p \in Prims, s \in UNION {Sizes(q) : q \in Prims}, o \in BOOLEAN, w \in Wraps}
+                 p \in Prims, s \in UNION {Sizes(q) : q \in Prims}, o \in Opts, w \in Wraps}
 PrimShapesOK == {sh \in PrimShapes : sh.size \in Sizes(sh.p)}
 RefShapes(app) == {[p |-> "", ref |-> r, size |-> <<>>, opt |-> o, wrap |-> w] :
-                     r \in Refs(app), o \in BOOLEAN, w \in Wraps}
+                     r \in (IF Rich THEN Refs(app) ELSE {<<"", "T">>}), o \in Opts, w \in Wraps}
 \* wrapped two-part references and aliases of them are excluded here and covered by a dedicated
 \* probe (the compiler resolves them differently from plain fields, see known findings)
 Shapes(app) == PrimShapesOK \cup RefShapes(app)
@@ -59,6 +63,8 @@ CurType == Top(st).type
 
 Pick(S) == IF Sample /\ S # {} THEN {RandomElement(S)} ELSE S
 
+PickN(S, n) == IF Sample /\ S # {} THEN {RandomElement(S) : i \in 1..n} ELSE S
+
 Groups ==
   IF st.scope = <<>> THEN
     {{[k |-> "app", name |-> a, long |-> l, tags |-> t, attrs |-> at, pos |-> NoPos] :
@@ -66,7 +72,7 @@ Groups ==
   ELSE LET fr == Top(st) IN
   CASE fr.k = "app" ->
        { {[k |-> "type", name |-> t, kind |-> kd, tags |-> tg, attrs |-> <<>>, pos |-> NoPos] :
-            t \in Pick(TypesOf(IF fr.app = "NS :: C" THEN "C" ELSE fr.app)), kd \in Pick({"tuple", "relation"}), tg \in Pick(TagSets)},
+            t \in PickN(TypesOf(IF fr.app = "NS :: C" THEN "C" ELSE fr.app), 2), kd \in Pick({"tuple", "relation"}), tg \in Pick(TagSets)},
          {[k |-> "type", name |-> "E", kind |-> "enum", tags |-> <<>>, attrs |-> <<>>, pos |-> NoPos]},
          (IF Rich THEN {[k |-> "type", name |-> "Un", kind |-> "union", tags |-> <<>>, attrs |-> <<>>, pos |-> NoPos]} ELSE {}),
          (IF Rich THEN {[k |-> "alias", name |-> "Al", sh |-> sh, pos |-> NoPos] :
@@ -84,7 +90,7 @@ Groups ==
     [] fr.k = "type" ->
        { (IF fr.kind \in {"tuple", "relation"} THEN
             {[k |-> "field", name |-> f, sh |-> sh, pk |-> pk, tags |-> tg, attrs |-> at, pos |-> NoPos] :
-               f \in Pick(FieldNames \ FieldsOf(fr.app, fr.type)), sh \in Pick(Shapes(fr.app)),
+               f \in PickN(FieldNames \ FieldsOf(fr.app, fr.type), 4), sh \in Pick(Shapes(fr.app)),
                pk \in Pick(IF fr.kind = "relation" THEN BOOLEAN ELSE {FALSE}), tg \in Pick(TagSets \ {<<"t1", "t2">>}),
                at \in Pick(IF Rich THEN {<<>>, <<<<"json", "name">>>>} ELSE {<<>>})}
           ELSE IF fr.kind = "enum" THEN
@@ -105,7 +111,7 @@ Groups ==
                  a \in (Apps \ {fr.app}) \cup {"."}, e \in {"Ep", "Op"}}
          \cup {[k |-> "stmt", kind |-> "ret", text |-> t, tags |-> <<>>, attrs |-> <<>>, pos |-> NoPos] :
                  t \in {"ok", "ok <: T", "error <: string"}},
-         (IF Len(st.scope) < 6
+         (IF Len(st.scope) < 5
                  THEN {[k |-> "block", kw |-> kw, text |-> t, pos |-> NoPos] :
                          kw \in {"if", "until", "while", "for each", "for", "alt"}, t \in Preds}
                       \cup {[k |-> "block", kw |-> "label", text |-> t, pos |-> NoPos] : t \in Texts}
@@ -146,22 +152,35 @@ CloseOK(d) ==
 Has(kind, app, name) == \E f \in st.model : f[1] = kind /\ f[2] = app /\ f[3] = name
 
 Fresh(d) ==
-  /\ d.k = "type" => /\ ~\E f \in st.model : f[1] = "type" /\ f[2] = Top(st).app /\ f[3] = d.name /\ f[4] # d.kind
-                      /\ d.kind \in {"enum", "union"} => ~Has("type", Top(st).app, d.name)
-  /\ d.k = "alias" => ~Has("type", Top(st).app, d.name)
-  /\ d.k = "enumitem" => ~\E f \in st.model : f[1] = "enum" /\ f[2] = Top(st).app /\ f[3] = Top(st).type
-                                               /\ (f[4] = d.name \/ f[5] = ToString(d.val))
-  /\ d.k = "member" => <<"union", Top(st).app, Top(st).type, TypeStr(d.sh)>> \notin st.model
-  /\ d.k = "anno" => ~\E f \in st.model : f[1] = "app.attr" /\ f[2] = Top(st).app /\ f[3] = d.name
-  /\ d.k = "ep" => ((d.params # <<>> \/ d.tags # <<>>) => ~Has("ep", Top(st).app, d.name))
-  /\ d.k = "ep" => ~Has("param", Top(st).app, d.name)
-  /\ d.k = "event" => ~\E i \in DOMAIN st.locs : st.locs[i].elem = <<"ep", Top(st).app, d.name>>
-  /\ d.k = "sub" => ~Has("sub", Top(st).app, d.src \o " -> " \o d.name)
-  /\ d.k = "method" => ~Has("ep", Top(st).app, d.verb \o " " \o Top(st).path)
+  LET app == Top(st).app IN
+  CASE d.k = "type" ->
+         (~\E f \in st.model : f[1] = "type" /\ f[2] = app /\ f[3] = d.name /\ f[4] # d.kind)
+         /\ (d.kind \in {"enum", "union"} => ~Has("type", app, d.name))
+    [] d.k = "alias" -> ~Has("type", app, d.name)
+    [] d.k = "enumitem" ->
+         ~\E f \in st.model : f[1] = "enum" /\ f[2] = app /\ f[3] = Top(st).type
+                                /\ (f[4] = d.name \/ f[5] = ToString(d.val))
+    [] d.k = "member" -> <<"union", app, Top(st).type, TypeStr(d.sh)>> \notin st.model
+    [] d.k = "anno" -> ~\E f \in st.model : f[1] = "app.attr" /\ f[2] = app /\ f[3] = d.name
+    [] d.k = "ep" -> (~Has("param", app, d.name))
+                     /\ ((d.params # <<>> \/ d.tags # <<>>) => ~Has("ep", app, d.name))
+    [] d.k = "event" -> ~\E i \in DOMAIN st.locs : st.locs[i].elem = <<"ep", app, d.name>>
+    [] d.k = "sub" -> ~Has("sub", app, d.src \o " -> " \o d.name)
+    [] d.k = "method" -> ~Has("ep", app, d.verb \o " " \o Top(st).path)
+    [] OTHER -> TRUE
+
+\* the current top-level block started at the last application header
+AppStart == LET I == {i \in DOMAIN prog : prog[i].k = "app"} IN IF I = {} THEN 0 ELSE CHOOSE i \in I : \A j \in I : j <= i
+Over == Len(prog) >= MaxDecls \/ (st.scope # <<>> /\ Len(prog) - AppStart >= BlockBudget)
 
 OK(d) == /\ Enabled(st, d) /\ ElseOK(d) /\ CloseOK(d) /\ Fresh(d)
-         /\ (Len(prog) >= MaxDecls => d.k = "end" \/ (d.k = "stmt" /\ d.kind = "action")
-                                        \/ d.k \in {"field", "enumitem", "member", "method", "choice"})
+         \* past the budget only what is needed to close the open scopes is allowed
+         /\ (Over =>
+               \/ d.k = "end"
+               \/ d.k = "stmt" /\ d.kind = "action" /\ ((Top(st).k = "ep" /\ Top(st).own = 0) \/ (Top(st).k = "block" /\ Top(st).n = 0))
+               \/ d.k \in {"field", "enumitem", "member"} /\ Top(st).own = 0
+               \/ d.k = "method" /\ Last(prog).k = "rest"
+               \/ d.k = "choice" /\ Top(st).n = 0)
 
 \* Sample: one random candidate per declaration kind (balanced random programs in -simulate);
 \* otherwise every candidate (exhaustive model checking)
@@ -169,36 +188,6 @@ Candidates ==
   LET gs == {{d \in g : OK(d)} : g \in Groups}
   IN IF Sample THEN {RandomElement(g) : g \in {h \in gs : h # {}}} ELSE UNION gs
 
-GenInit == st = EmptyState /\ prog = <<>> /\ done = FALSE
-
-Emit == PrintT(<<"SCN", ToJson([decls |-> prog])>>)
-
-GenNext ==
-  /\ ~done
-  /\ \/ /\ Len(prog) < MaxDecls \/ st.scope # <<>>
-        /\ \E d \in Candidates :
-             /\ st' = Step(st, d)
-             /\ prog' = Append(prog, d)
-             /\ done' = FALSE
-     \/ /\ st.scope = <<>> /\ prog # <<>>
-        /\ Emit
-        /\ done' = TRUE /\ UNCHANGED <<st, prog>>
-
-GenSpec == GenInit /\ [][GenNext]_gvars
-
------------------------------------------------------------------------------
-(* Design-level checks *)
-ScopeWellFormed ==
-  \A i \in DOMAIN st.scope :
-     /\ st.scope[i].k \in {"app", "type", "rest", "ep", "block", "oneof"}
-     /\ (i = 1) = (st.scope[i].k = "app")
-     /\ st.scope[i].k \in {"block", "oneof"} => i > 1 /\ st.scope[i - 1].k \in {"ep", "block", "oneof"}
-
-\* replaying the program from scratch gives the same state (Step is a function of the text)
-ReplayAgrees == Replay(EmptyState, prog).model = st.model
-
-\* C04 at design level: the top-level blocks of a finished program can be re-ordered freely as
-\* long as blocks that append to the same statement list keep their relative order
 RECURSIVE Blocks(_, _, _)
 Blocks(ds, cur, depth) ==
   IF ds = <<>> THEN (IF cur = <<>> THEN <<>> ELSE <<cur>>)
@@ -216,6 +205,47 @@ Flatten(bs) == IF bs = <<>> THEN <<>> ELSE Head(bs) \o Flatten(Tail(bs))
 Touches(b) == {<<f[2], f[3]>> : f \in {g \in Replay(EmptyState, b).model : g[1] = "stmt"}}
 Commute(b1, b2) == Touches(b1) \cap Touches(b2) = {}
 
+
+\* C04: assignments of the top-level blocks to files 0 (root), 1, 2.  The compiler walks the root
+\* first, then its imports, so the effective block order is by file; blocks that append to the same
+\* statement list must keep their relative order (everything else merges by name).
+OrderOK(bs, plan) == \A i, j \in DOMAIN bs : (i < j /\ ~Commute(bs[i], bs[j])) => plan[i] <= plan[j]
+Plans ==
+  IF ~WithPlans THEN <<>>
+  ELSE LET bs == Blocks(prog, <<>>, 0)
+           F == [DOMAIN bs -> 0..2]
+           cand == {RandomElement(F) : k \in 1..6}
+       IN SetToSeq({p \in cand : OrderOK(bs, p)})
+
+GenInit == st = EmptyState /\ prog = <<>> /\ done = FALSE
+
+
+GenNext ==
+  /\ ~done
+  /\ \/ /\ Len(prog) < MaxDecls \/ st.scope # <<>>
+        /\ \E d \in Candidates :
+             /\ st' = Step(st, d)
+             /\ prog' = Append(prog, d)
+             /\ done' = FALSE
+     \/ /\ st.scope = <<>> /\ prog # <<>> /\ Len(prog) >= MinDecls
+        /\ PrintT(<<"SCN", ToJson([decls |-> prog, plans |-> Plans])>>)
+        /\ done' = TRUE /\ UNCHANGED <<st, prog>>
+
+GenSpec == GenInit /\ [][GenNext]_gvars
+
+-----------------------------------------------------------------------------
+(* Design-level checks *)
+ScopeWellFormed ==
+  \A i \in DOMAIN st.scope :
+     /\ st.scope[i].k \in {"app", "type", "rest", "ep", "block", "oneof"}
+     /\ (i = 1) = (st.scope[i].k = "app")
+     /\ st.scope[i].k \in {"block", "oneof"} => i > 1 /\ st.scope[i - 1].k \in {"ep", "block", "oneof"}
+
+\* replaying the program from scratch gives the same state (Step is a function of the text)
+ReplayAgrees == Replay(EmptyState, prog).model = st.model
+
+\* C04 at design level: the top-level blocks of a finished program can be re-ordered freely as
+\* long as blocks that append to the same statement list keep their relative order
 MergeIndependent ==
   done =>
     LET bs == Blocks(prog, <<>>, 0) IN
